@@ -19,6 +19,7 @@ ASSUMPTIONS = ['float64 layers; np.mean/np.var pairwise summation differs from t
                'np.random.rand draws are captured, their distribution is trusted']
 TRUSTED_BASE = ['harness/props/c13.py (generator, canonicalisation)']
 MOMENTA = [None, 0.1, 0.5, 1.0]
+VIA = ['self', 'self', 'parent', 'root']
 
 
 def gen_bn(rng, tier, mo, affine, track, rank):
@@ -31,8 +32,9 @@ def gen_bn(rng, tier, mo, affine, track, rank):
         evs.append(('setaffine', [rng.dyadic(-2, 2) for _ in range(C)], [rng.dyadic(-2, 2) for _ in range(C)]))
     for _ in range(rng.randint(2, 12 if tier == 'quick' else 30)):
         r = rng.random()
-        if r < 0.2: evs.append(('train',))
-        elif r < 0.4: evs.append(('eval',))
+        # the switch reaches the layer directly, through its parent container, or through the root of a deeper tree
+        if r < 0.2: evs.append(('train', rng.pick(VIA)))
+        elif r < 0.4: evs.append(('eval', rng.pick(VIA)))
         else:
             N = rng.pick([1, 2, 2, 3, 4, 5])
             shape = (N, C) + rest
@@ -91,6 +93,9 @@ def _bn_impl(c):
     out = []
     def go():
         bn = nn.BatchNorm1d(c['C'], eps=c['eps'], momentum=c['mo'], affine=c['affine'], track_running_stats=c['track'], dtype=np.float64)
+        parent = nn.Sequential(bn)
+        root = nn.Sequential(nn.ReLU(), parent)
+        who = {'self': bn, 'parent': parent, 'root': root}
         out.append('ok')
         for e in c['evs']:
             if e[0] == 'setstats':
@@ -101,9 +106,9 @@ def _bn_impl(c):
                 bn.weight.data = np.array(e[1], dtype=np.float64); bn.bias.data = np.array(e[2], dtype=np.float64)
                 out.append('ok')
             elif e[0] == 'train':
-                bn.train(); out.append('ok')
+                who[e[1] if len(e) > 1 else 'self'].train(); out.append('ok')
             elif e[0] == 'eval':
-                bn.eval(); out.append('ok')
+                who[e[1] if len(e) > 1 else 'self'].eval(); out.append('ok')
             else:
                 x = sg.Tensor(np.array(e[2], dtype=np.float64).reshape(e[1]))
                 before = x.data.copy()
@@ -236,6 +241,8 @@ def oracle(c):
     rm, rv, nbt, training = np.zeros(C), np.ones(C), 0, True
     g, b = (np.ones(C), np.zeros(C)) if c['affine'] else (None, None)
     bn = nn.BatchNorm1d(C, eps=c['eps'], momentum=c['mo'], affine=c['affine'], track_running_stats=c['track'], dtype=np.float64)
+    parent = nn.Sequential(bn)
+    who = {'self': bn, 'parent': parent, 'root': nn.Sequential(nn.ReLU(), parent)}
     for k, e in enumerate(c['evs']):
         if e[0] == 'setstats':
             if c['track']:
@@ -243,8 +250,8 @@ def oracle(c):
                 bn.running_mean.data = rm.copy(); bn.running_var.data = rv.copy()
         elif e[0] == 'setaffine':
             g, b = np.array(e[1]), np.array(e[2]); bn.weight.data = g.copy(); bn.bias.data = b.copy()
-        elif e[0] == 'train': training = True; bn.train()
-        elif e[0] == 'eval': training = False; bn.eval()
+        elif e[0] == 'train': training = True; who[e[1] if len(e) > 1 else 'self'].train()
+        elif e[0] == 'eval': training = False; who[e[1] if len(e) > 1 else 'self'].eval()
         else:
             x = np.array(e[2]).reshape(e[1])
             r = outcome(lambda: bn(sg.Tensor(x.copy())))
